@@ -217,9 +217,12 @@ def families(tier):
         for calls in call_sets:
             if len(calls) == 2 and len(stream) > (3 if deep else 2):
                 continue
+            two_on_three = len(calls) == 2 and len(stream) == 3  # (thorough only; kept to the cancel-free starts: the full product was 12.5 * 10^6 executions, over two hours)
             if len(stream) == 4 and (len(calls) > 1 or calls[0] not in (0, 1, 2, 8)):
                 continue
             for start, cancel in itertools.product(itertools.product((0, 1), repeat=len(calls)), (None, 0, 1, 2)):
+                if two_on_three and (cancel is not None or start == (1, 1)):
+                    continue
                 if not deep and (cancel == 2 or (cancel == 0 and len(stream) > 1)):
                     continue
                 if not deep and len(calls) == 2 and (start in ((1, 1), (1, 0)) or cancel == 0):
